@@ -2,6 +2,8 @@
 
 package client
 
+import "context"
+
 // Read-only accessors used by the verification harness (/verif).  Compiled only with -tags verif.
 
 // VerifNewSelector builds the stock selector for a mode (newSelector is unexported).
@@ -86,4 +88,15 @@ func VerifFilterByStateAndGroup(group string, servers map[string]string) map[str
 	}
 	filterByStateAndGroup(group, out)
 	return out
+}
+
+// VerifXClientSelect asks an XClient's selector for a server, as selectClient does.
+func VerifXClientSelect(x XClient, servicePath, serviceMethod string, args interface{}) string {
+	c, ok := x.(*xClient)
+	if !ok {
+		return ""
+	}
+	c.mu.Lock()
+	defer c.mu.Unlock()
+	return c.selector.Select(context.Background(), servicePath, serviceMethod, args)
 }
